@@ -23,6 +23,12 @@ def parseSeg (s : String) : Option Seg :=
 def parseSegs (s : String) : Option (List Seg) :=
   if s == "-" then some [] else (s.splitOn ",").mapM parseSeg
 
+/-- the server configuration of a case line: `sv=<tracing><http log file><tls>`; only cfg.Tracing changes the chain -/
+def chainOf (ws : List String) : List Layer :=
+  match field ws "sv" with
+  | some sv => Gen.chain (sv.startsWith "1")
+  | none => Gen.chain false
+
 /-- configured pairs: `-` or `user:pass,user:pass` -/
 def parseCreds (s : String) : Option (List (String × String)) :=
   if s == "-" then some []
@@ -182,7 +188,7 @@ def answerReq (pre post : List String) : String :=
   | some r, some o =>
     -- the model runs with the header classified by the extracted logic of basicAuthHandler
     let ma := match parseCredSit pre "au" with | some (_, _, x) => x | none => r.auth
-    let m := handle Gen.chain Gen.routes { r with auth := ma }
+    let m := handle (chainOf pre) Gen.routes { r with auth := ma }
     let a := arm r ++ "-" ++ toString m.status
     let failed := (clauses r o).filter (fun c => !c.2)
     if !failed.isEmpty then
@@ -263,7 +269,7 @@ def answerCli (pre post : List String) : String :=
       pure (cfg, cfgM, c, ops, ret) : Option (CliCfg × CliCfg × Call × List Op × Ret)) with
   | none => "bad-case client-line"
   | some (cfg, cfgM, c, ops, ret) =>
-    let m := clientCall Gen.chain Gen.routes cfgM c
+    let m := clientCall (chainOf pre) Gen.routes cfgM c
     let a := "cli-" ++ (field pre "call").getD "?" ++ "-" ++ showRet m.2
     let failed := (cliClauses cfg c ops ret).filter (fun x => !x.2)
     if !failed.isEmpty then
